@@ -401,7 +401,12 @@ var replyKinds = []string{
 	"canon", "canon", "canon-mutated", "canon-mutated", "canon-mutated", "empty-result", "text-only-result", "text-then-canon", "canon-then-text",
 	"error", "error-text-first", "error-empty", "error-no-payload", "error-garbage", "error-echo",
 	"wrong-payload", "wrong-namespace", "nested-garbage", "two-payloads", "type-get", "no-type", "pre-only",
+	"broken-xml", "broken-xml", "truncated",
 }
+
+// brokenPieces are inserted verbatim somewhere inside an otherwise canonical
+// answer: constructs the stream reader refuses and XML that is not well-formed.
+var brokenPieces = []string{`<!-- c -->`, `<?pi x?>`, `<!DOCTYPE x>`, `<![CDATA[x]]>`, `<a></b>`, `&nosuch;`, `</zz>`, "\x01", `<a b=c/>`, `<stream:error><bad-format xmlns="urn:ietf:params:xml:ns:xmpp-streams"/></stream:error>`}
 
 func wrapReply(kind, typ, from, inner string) string {
 	ta := ""
@@ -511,6 +516,16 @@ func genReply(t *rapid.T, h *helper) breply {
 		r.stanza = wrapReply(kind, rapid.SampledFrom([]string{"get", "set"}).Draw(t, "rtype"), from, canon)
 	case "no-type":
 		r.stanza = wrapReply(kind, rapid.SampledFrom([]string{"", "bogus"}).Draw(t, "rtype"), from, canon)
+	case "broken-xml":
+		n := lit(wrapReply(kind, rapid.SampledFrom([]string{"result", "result", "error"}).Draw(t, "rtype"), from, canon+rapid.SampledFrom([]string{"", "", errCancel}).Draw(t, "witherr")))
+		var refs []nodeRef
+		collect(n, nil, 0, 0, &refs)
+		ref := refs[rapid.IntRange(0, len(refs)-1).Draw(t, "broken-node")]
+		insertChild(ref.n, rapid.IntRange(0, len(ref.n.Children)).Draw(t, "broken-pos"), xt.Raw(rapid.SampledFrom(brokenPieces).Draw(t, "broken-piece")))
+		r.stanza = pre + render(n)
+	case "truncated":
+		full := pre + wrapReply(kind, "result", from, canon)
+		r.stanza = full[:rapid.IntRange(1, len(full)-1).Draw(t, "cut")]
 	case "pre-only":
 		if pre == "" {
 			pre = strings.ReplaceAll(canonMamMsg, "$QID", "other")
@@ -597,7 +612,7 @@ func runBCase(c *bcase, fail func(format string, args ...any)) (res bresult, inc
 	}()
 
 	sessionEnded := false
-	deadline := time.Now().Add(helperWait + 4*time.Second)
+	deadline := time.Now().Add(helperWait + helperWait/4)
 loop:
 	for !done.Load() {
 		var reqs []request
@@ -631,6 +646,12 @@ loop:
 			}
 			logf("request(s) %v answered", ids(reqs))
 			e.sv.Feed(sb.String())
+			if !wellFormed(sb.String()) {
+				// a peer that sends something that is not XML can only hang up
+				// afterwards; whoever reads the reply sees the end of the input
+				logf("the answer is not well-formed: the peer ends its stream (EOF)")
+				e.sv.Conn.CloseInput()
+			}
 		case hasClosingTag(e.sv.Conn.Output()):
 			// the session ended (the reply was refused at stream level): the
 			// request can only end through its context
@@ -639,7 +660,8 @@ loop:
 			cancel()
 			break loop
 		default:
-			logf("peer loop timed out")
+			logf("peer loop timed out: the peer ends its stream (EOF)")
+			e.sv.Conn.CloseInput()
 			cancel()
 			break loop
 		}
@@ -673,6 +695,34 @@ loop:
 		return res, true
 	}
 	return res, false
+}
+
+// wellFormed reports whether s is a sequence of complete, well-formed elements.
+func wellFormed(s string) bool {
+	d := xml.NewDecoder(strings.NewReader(`<wrap xmlns="` + nsClient + `" xmlns:stream="` + wire.StreamNS + `">` + s + `</wrap>`))
+	depth := 0
+	for {
+		tok, err := d.Token()
+		if err == io.EOF {
+			return depth == 0
+		}
+		if err != nil {
+			return false
+		}
+		switch tok.(type) {
+		case xml.StartElement:
+			depth++
+		case xml.EndElement:
+			depth--
+			if depth == 0 {
+				// the wrapper must be the last thing closed
+				if _, err := d.Token(); err != io.EOF {
+					return false
+				}
+				return true
+			}
+		}
+	}
 }
 
 func ids(reqs []request) []string {
